@@ -21,6 +21,32 @@ def dom(name, run_mod, nq, nt, model=True):
 
 
 PROPS = {
+    "C05": {
+        "domains": [
+            {
+                "name": "c05",
+                "run_vo": "Model/RunCensor.vo",
+                "n_quick": 30,
+                "n_thorough": 300,
+                "model": True
+            },
+            {
+                "name": "c05q",
+                "run_vo": "Model/RunPgSession.vo",
+                "n_quick": 100,
+                "n_thorough": 1500,
+                "model": True
+            }
+        ],
+        "trusted": [
+            "modelled, not verified: the yacc SQL parser/normalizer (formatting invariance is checked differentially on the real AcraCensor only), the pattern relation over the 13 placeholders (per-handler exact/table/pattern match results are inputs of the chain model, computed by the real matchers; oracle: a pattern obtained from a statement by generalising literals / the WHERE clause must match it)",
+            "session model covers the simple query protocol ('Q'); extended protocol (Parse/Bind/Execute) and the MySQL proxy are not modelled",
+            "in-process PostgreSQL rig (harness/vh/pgrig.go): net.Pipe pairs, scripted client and fake back end, read-start synchronisation on the proxy's database connection"
+        ],
+        "assumptions": [
+            "queue_aligned: the database answers the statements it received in order, one completion (CommandComplete/ErrorResponse) + ReadyForQuery per statement (simple protocol, single-statement queries)"
+        ]
+    },
     "C12": {
         "domains": [
             {
